@@ -144,6 +144,12 @@ static expect_t expq[MAXDISP];
 static int nexp;
 static bool uncertain_flag[MAXDISP];
 
+/* "white space" is the isspace() class of the C locale; a newline never reaches the line buffer */
+static bool is_ws(char ch)
+{
+	return ch == ' ' || ch == '\t' || ch == '\r' || ch == '\v' || ch == '\f';
+}
+
 static bool parse_unambiguous(const char *line, int len, expect_t *e)
 {
 	e->ntok = 0;
@@ -151,7 +157,7 @@ static bool parse_unambiguous(const char *line, int len, expect_t *e)
 		return false;
 	int i = 0;
 	while (i < len) {
-		while (i < len && (line[i] == ' ' || line[i] == '\t'))
+		while (i < len && is_ws(line[i]))
 			i++;
 		if (i >= len)
 			break;
@@ -168,10 +174,10 @@ static bool parse_unambiguous(const char *line, int len, expect_t *e)
 			if (i >= len || n == 0)
 				return false; /* unterminated or empty quoted token */
 			i++;
-			if (i < len && line[i] != ' ' && line[i] != '\t')
+			if (i < len && !is_ws(line[i]))
 				return false; /* quote closed in the middle of a word */
 		} else {
-			while (i < len && line[i] != ' ' && line[i] != '\t') {
+			while (i < len && !is_ws(line[i])) {
 				if (line[i] == '\'' || line[i] == '"')
 					return false; /* quote inside a bare word */
 				t[n++] = line[i++];
@@ -558,7 +564,7 @@ static void random_case(long long c)
 	unsigned char s[1400];
 	int n = 0;
 	int nlines = 1 + (int)vh_below(&r, 5);
-	bool near_limit = false, has_edit = false, has_quote = false;
+	bool near_limit = false, has_edit = false, has_quote = false, odd_ws = false;
 	for (int l = 0; l < nlines && n < 1200; l++) {
 		/* target line length */
 		uint32_t x = vh_below(&r, 10);
@@ -579,7 +585,9 @@ static void random_case(long long c)
 		while (len < target && n < 1300) {
 			uint32_t y = vh_below(&r, 100);
 			if (y < 18) {
-				s[n++] = vh_below(&r, 5) ? ' ' : '\t';
+				s[n++] = (unsigned char)" \t    \t\r\v\f"[vh_below(&r, 10)];
+				if (s[n - 1] != ' ' && s[n - 1] != '\t')
+					odd_ws = true;
 				len++;
 			} else if (y < 24) {
 				/* a quoted token */
@@ -587,7 +595,7 @@ static void random_case(long long c)
 				int ql = 1 + (int)vh_below(&r, 6);
 				if (len + ql + 3 > target)
 					ql = 1;
-				if (s[n - 1] != ' ' && s[n - 1] != '\t' && vh_below(&r, 8)) {
+				if (!is_ws((char)s[n - 1]) && vh_below(&r, 8)) {
 					s[n++] = ' ';
 					len++;
 				}
@@ -639,6 +647,8 @@ static void random_case(long long c)
 	VH_COUNT("random_streams");
 	if (near_limit)
 		VH_COUNT("streams_with_line_near_the_79_limit");
+	if (odd_ws)
+		VH_COUNT("streams_with_cr_vt_ff_between_words");
 	if ((has_edit && has_quote) || near_limit) {
 		uint64_t h = 15;
 		for (int i = 0; i < n; i++)
